@@ -74,10 +74,24 @@ def _atoms(e, truth, out):
     _emit("!=" if truth else "==", e, None, out)
 
 
+TWIN = {">=": (">", -1), ">": (">=", 1), "<=": ("<", 1), "<": ("<=", -1)}
+
+
 def _emit(op, l, r, out):
     ln = norm(l)
     rn = norm(r) if r is not None else ("c", 0)
     out.append((op, ln, rn, l, r))
+    # integer comparisons with a constant are also reported in their equivalent spellings
+    # (x >= 65 is x > 64; 5 < x is x > 5), so rules do not depend on how a threshold was written
+    if op in TWIN:
+        if rn[0] == "c" and ln[0] != "c" and isinstance(rn[1], int):
+            t, d = TWIN[op]
+            out.append((t, ln, ("c", rn[1] + d), l, r))
+        elif ln[0] == "c" and rn[0] != "c" and isinstance(ln[1], int):
+            so = SWAP[op]
+            out.append((so, rn, ln, r, l))
+            t, d = TWIN[so]
+            out.append((t, rn, ("c", ln[1] + d), r, l))
     # look through embedded assignments on either side
     for side, other, o in ((l, rn, op), (r, ln, SWAP[op])):
         if side is None:
